@@ -149,6 +149,44 @@ let bres = function M.Ok m -> "OK " ^ bmsg_str m | M.Err e -> "ERR " ^ berr_str 
 (* split on a separator, keeping empty fields *)
 let split_on_string_keep sep s = Str.split_delim (Str.regexp_string sep) s
 
+(* annotated JSON syntax trees (C12) *)
+let opt_of f = function A "-" -> None | x -> Some (f x)
+let rec json_of_sx (x : sx) : M.json =
+  match x with
+  | L [A "null"] -> M.JNull
+  | L [A "bool"; A b] -> M.JBool (b = "1")
+  | L [A "num"; iz; A plain; f32; f64] ->
+    M.JNum (opt_of (function A s -> z_of_str s | _ -> failwith "num") iz, plain = "1",
+            opt_of (function A s -> n_of_str s | _ -> failwith "f32") f32, opt_of (function A s -> n_of_str s | _ -> failwith "f64") f64)
+  | L [A "str"; A h; A "-"] -> M.JStr (bytes_of_hex h, None)
+  | L [A "str"; A h; A sec; A nsec] -> M.JStr (bytes_of_hex h, Some (z_of_str sec, z_of_str nsec))
+  | L (A "arr" :: l) -> M.JArr (List.map json_of_sx l)
+  | L [A "obj"; t; d; v] -> M.JObj (opt_of json_of_sx t, opt_of json_of_sx d, opt_of json_of_sx v)
+  | _ -> failwith "bad json ast"
+
+(* JSON documents (C13): leaves formatted by the library come from the oracle table of the case *)
+exception Leaf_fail
+let leaf_key (v : M.gval) : string =
+  match v with
+  | M.GF32 b -> "f32:" ^ str_of_n b | M.GF64 b -> "f64:" ^ str_of_n b
+  | M.GStr s -> "str:" ^ hex_of_bytes s | M.GTime (s, ns) -> "time:" ^ str_of_z s ^ ":" ^ str_of_z ns
+  | M.GErr n -> "err:" ^ str_of_n n
+  | _ -> "?"
+let rec doc_text tbl (d : M.jdoc) : string =
+  let lookup k = match Hashtbl.find_opt tbl k with
+    | Some "FAIL" -> raise Leaf_fail
+    | Some h -> string_of_hex h
+    | None -> failwith ("no oracle entry for " ^ k) in
+  match d with
+  | M.DNull -> "null" | M.DBool b -> if b then "true" else "false"
+  | M.DInt z -> str_of_z z
+  | M.DLeaf v -> lookup (leaf_key v)
+  | M.DBytes64 s -> lookup ("b64:" ^ hex_of_bytes s)
+  | M.DBytesArr s -> "[" ^ String.concat "," (List.map str_of_n s) ^ "]"
+  | M.DStr s -> "\"" ^ string_of_cstring s ^ "\""
+  | M.DArr l -> "[" ^ String.concat "," (List.map (doc_text tbl) l) ^ "]"
+  | M.DObj o -> "{" ^ String.concat "," (List.map (fun (k, v) -> "\"" ^ string_of_cstring k ^ "\":" ^ doc_text tbl v) o) ^ "}"
+
 (* after the first space-separated n fields, the rest of the line *)
 let rest_after (line : string) (n : int) : string =
   let i = ref 0 and c = ref 0 in
@@ -258,6 +296,37 @@ let handle (line : string) : string =
   (* ---------------- client sessions ---------------- *)
   | "S" :: _ -> run_session line
   | "V" :: _ -> if M.c_valid (msgs_of_sx (sx_of_string (rest_after line 1))) then "OK" else "ERR"
+  (* ---------------- C12 / C13 JSON ---------------- *)
+  | "JIN" :: _ :: _ ->
+    let ast = rest_after line 2 in
+    let ast = (match split_on_string_keep " => " ast with a :: _ -> a | [] -> ast) in
+    (match M.parse_requests (json_of_sx (sx_of_string ast)) with
+     | M.Ok1 ms -> "OK " ^ sx_of_msgs ms
+     | M.Err1 -> "ERR")
+  | "JEQ" :: _ ->
+    (match split_on_string_keep " | " line with
+     | [_; asts] ->
+       let rs = List.map (fun a -> M.parse_requests (json_of_sx (sx_of_string a))) (split_on_string_keep " ;; " asts) in
+       let strs = List.map (function M.Ok1 ms -> "OK " ^ sx_of_msgs ms | M.Err1 -> "ERR") rs in
+       (match strs with
+        | [] -> "?"
+        | x :: r -> if List.for_all (fun y -> y = x) r then (if x = "ERR" then "ALLERR" else "SAME " ^ String.sub x 3 (String.length x - 3)) else "DIFF")
+     | _ -> "?")
+  | "JOUT" :: fmt :: _ | "JOUTC" :: fmt :: _ ->
+    (match split_on_string_keep " | " line with
+     | [hd; table] ->
+       let ms = msgs_of_sx (sx_of_string (rest_after hd 2)) in
+       let tbl = Hashtbl.create 64 in
+       List.iter (fun kv -> match String.index_opt kv '=' with
+         | Some i -> Hashtbl.replace tbl (String.sub kv 0 i) (String.sub kv (i + 1) (String.length kv - i - 1))
+         | None -> if kv <> "" then Hashtbl.replace tbl kv "") (String.split_on_char ' ' table);
+       let yneg s ns = Hashtbl.mem tbl ("yneg:" ^ str_of_z s ^ ":" ^ str_of_z ns) in
+       let doc = (match fmt with
+         | "json" -> M.render_json ms
+         | "jsonsimple" -> M.render_simple yneg ms
+         | _ -> M.render_merged yneg ms) in
+       (try "OK " ^ hex_of_string (doc_text tbl doc) with Leaf_fail -> "FAIL")
+     | _ -> "?")
   (* ---------------- codec ---------------- *)
   | "W" :: key :: iv :: crc :: sec :: nsec :: _ ->
     (* W key iv crc sec nsec (msgs): rscp.Write on the chain iv, then rscp.Read of the result on the same chain *)
